@@ -224,6 +224,10 @@ func (p *prop) judge(k *kase, sel string, rcd *rec, res *scriptResult, o *core.O
 		fail("write-result", "%s", res.writeFault)
 	}
 
+	if poolFault != "" {
+		fail("pooled-encoder-used-without-reset", "%s", poolFault)
+		poolFault = ""
+	}
 	if res.hijackFault != "" {
 		fail("hijack-not-passed-through", "%s", res.hijackFault)
 	}
